@@ -60,7 +60,7 @@ func (ct *controller) shutdown() {
 		c.cancel()
 		close(c.gate)
 	}
-	deadline := time.Now().Add(5 * time.Second)
+	deadline := time.Now().Add(2 * time.Second)
 	for {
 		ct.mu.Lock()
 		all := true
@@ -168,7 +168,7 @@ var stateRe = regexp.MustCompile(`(?m)^goroutine (\d+) \[([^\],]+)`)
 
 // waitQuiescent blocks until every live call is parked.
 func (ct *controller) waitQuiescent() {
-	deadline := time.Now().Add(20 * time.Second)
+	deadline := time.Now().Add(6 * time.Second)
 	buf := make([]byte, 1<<20)
 	for spins := 0; ; spins++ {
 		// Read the flags BEFORE taking the goroutine snapshot: a call flagged
